@@ -44,9 +44,15 @@ def encode(t):
 
     """
     # Mapping from subterms to newly introduced variables
+    # (names x1, x2, ..., skipping the names of variables that occur in t)
+    used = set(v.name for v in t.get_vars())
     subterm_dict = dict()
-    for i, subt in enumerate(logic_subterms(t)):
-        subterm_dict[subt] = Var('x' + str(i+1), BoolType)
+    i = 0
+    for subt in logic_subterms(t):
+        i += 1
+        while 'x' + str(i) in used:
+            i += 1
+        subterm_dict[subt] = Var('x' + str(i), BoolType)
 
     # Collect list of equations
     eqs = []
